@@ -32,6 +32,12 @@ MUTANTS = [
      "            return consts.LABEL_TUPLE, tuple(self._box(item) for item in (obj if len(obj) != 1 else obj + obj))"),
     ("c01-pin-removed", "C01", "rpyc/core/protocol.py",
      "                _pinned = {}\n                self._pin_local_refs(package, _pinned)", "                pass"),
+    ("c03-decref-one-early", "C03", "rpyc/lib/colls.py",
+     "            if slot[1] < count:\n                del self._dict[key]\n            else:\n                slot[1] -= count\n                self._dict[key] = slot",
+     "            slot[1] -= count\n            if slot[1] <= 0:\n                del self._dict[key]"),
+    ("c10-decref-one-early", "C10", "rpyc/lib/colls.py",
+     "            if slot[1] < count:\n                del self._dict[key]\n            else:\n                slot[1] -= count\n                self._dict[key] = slot",
+     "            slot[1] -= count\n            if slot[1] <= 0:\n                del self._dict[key]"),
     # ---- C02
     ("c02-buffiter-drops-partial", "C02", "rpyc/utils/helpers.py",
      "        if not items:\n            break", "        if len(items) < count // factor and count > chunk:\n            break\n        if not items:\n            break"),
